@@ -305,6 +305,14 @@ impl<T: Flt> Tracked<T> {
         let eps = |d: f64| 1e-9 * d.abs().max(1.0) + 2.0 * slack;
         let mut prev_delta: Option<f64> = None;
         let strict = slack == 0.0;
+        // the number of frames the ramp is spread over: the frames produced, or fewer when the
+        // fixed-input types estimate fewer (input frames x mean ratio; they produce the frames
+        // the carried position allows, which can be more)
+        let ramp_frames = if matches!(cfg.kind, Kind::SI | Kind::FI) {
+            (n_out as f64).min(obs.before.in_next as f64 * 0.5 * (r0 + r1))
+        } else {
+            n_out as f64
+        };
         for (j, &yj) in y.iter().take(n_out).enumerate() {
             let valid = if cfg.kind.is_sinc() {
                 !yj.is_nan()
@@ -368,6 +376,17 @@ impl<T: Flt> Tracked<T> {
                             format!(
                                 "call {} frame {}: spacing {:?} not within [{:?},{:?}] (ratios {:?}->{:?}, first frame of call: {})",
                                 self.trk.calls, j, d, lo, hi, r0, r1, j == 0
+                            ),
+                        ));
+                    } else if ramped && strict && prev_delta.is_none() && ramp_frames >= 3.0 && (d - t0).abs() > (t1 - t0).abs() * (j as f64 + 2.0) / ramp_frames + eps(d) {
+                        // the ramp starts at the old step: the spacing before frame j of the call
+                        // is j+1 increments (of 1/n of the way each) from 1/old
+                        viols.push(v(
+                            "C06",
+                            "ramp-does-not-start-at-old-step",
+                            format!(
+                                "call {} frame {}: spacing {:?}, the ramp {:?}->{:?} over {} frames has to be within {} increments of {:?} there",
+                                self.trk.calls, j, d, t0, t1, ramp_frames, j + 2, t0
                             ),
                         ));
                     } else if ramped && strict {
